@@ -17,9 +17,18 @@ pub enum XOp {
     Rotate,
     /// the current file is renamed externally, `between` records are logged (only without
     /// rotation), then reopen_output() is called
-    RenameReopen { between: Vec<usize> },
+    RenameReopen {
+        between: Vec<usize>,
+        /// an empty file is created externally at the original path before reopen_output()
+        /// (what logrotate does in its `create` mode)
+        #[serde(default)]
+        recreate: bool,
+    },
     /// the current file is removed externally, then reopen_output() is called
-    RemoveReopen,
+    RemoveReopen {
+        #[serde(default)]
+        recreate: bool,
+    },
     /// reopen without any external action
     Reopen,
     /// reset_flw to family #n (other basename / directory / rotation setting)
@@ -125,8 +134,8 @@ impl Property for P {
                     12 => len.clone().prop_map(XOp::Write),
                     1 => Just(XOp::Flush),
                     2 => Just(XOp::Rotate),
-                    2 => prop::collection::vec(len, 0..3).prop_map(|between| XOp::RenameReopen { between }),
-                    1 => Just(XOp::RemoveReopen),
+                    2 => (prop::collection::vec(len, 0..3), any::<bool>()).prop_map(|(between, recreate)| XOp::RenameReopen { between, recreate }),
+                    1 => any::<bool>().prop_map(|recreate| XOp::RemoveReopen { recreate }),
                     1 => Just(XOp::Reopen),
                     2 => (0..nf, prop::bool::weighted(0.15)).prop_map(|(family, other_mode)| XOp::Reset { family, other_mode }),
                 ];
@@ -194,7 +203,7 @@ impl Property for P {
                         break;
                     }
                 }
-                XOp::RenameReopen { between } => {
+                XOp::RenameReopen { between, recreate } => {
                     if !opened {
                         continue; // the file is opened lazily: nothing to rename yet
                     }
@@ -211,6 +220,10 @@ impl Property for P {
                             write(&sess, *len, &mut q, &mut lens, &mut fam_of, active);
                         }
                     }
+                    if *recreate {
+                        let _ = std::fs::write(&cur, b"");
+                        out.class("file-recreated-externally-before-reopen");
+                    }
                     if let Err(e) = sess.reopen() {
                         out.set_fail("reopen-failed", e);
                         break;
@@ -219,13 +232,17 @@ impl Property for P {
                     renamed.push((dst, q));
                     kinds.insert("reopen");
                 }
-                XOp::RemoveReopen => {
+                XOp::RemoveReopen { recreate } => {
                     if !opened {
                         continue;
                     }
                     let Some(cur) = current_path(cfg, &dir) else { continue };
                     if std::fs::remove_file(&cur).is_err() {
                         continue;
+                    }
+                    if *recreate {
+                        let _ = std::fs::write(&cur, b"");
+                        out.class("file-recreated-externally-before-reopen");
                     }
                     if let Err(e) = sess.reopen() {
                         out.set_fail("reopen-failed", e);
